@@ -41,19 +41,30 @@ class Canon18(fingerprint.Canon):
 
 
 class RecWorld(ConnWorld):
-    def __init__(self, supplied_zc: bool = False) -> None:
+    def __init__(self, supplied_zc: bool = False, hostname: bool = False) -> None:
+        import aioesphomeapi.host_resolver as hr
         import aioesphomeapi.zeroconf as zmod
 
         self.zlog = ZcLog()
         self._zmod = zmod
-        self._saved_zc = (zmod.Zeroconf, zmod.AsyncZeroconf)
-        zc_cls, azc_cls, _ = make_zeroconf_fakes(self.zlog)
+        self._hr = hr
+        self._saved_zc = (zmod.Zeroconf, zmod.AsyncZeroconf, hr.AsyncServiceInfo)
+        zc_cls, azc_cls, info_cls = make_zeroconf_fakes(self.zlog)
         zmod.Zeroconf = zc_cls  # type: ignore[misc]
         zmod.AsyncZeroconf = azc_cls  # type: ignore[misc]
+        hr.AsyncServiceInfo = info_cls  # type: ignore[misc]
+
+        def answer(info: Any, zc: Any, timeout: int) -> bool:
+            info.v4 = ["10.0.0.1"]  # the device is always resolvable through mDNS; only TCP and the handshake vary
+            return True
+
+        self.zlog.request_script = answer
+        self.hostname = hostname
         try:
-            super().__init__(client=True, keepalive=1e6, login=True, device_name="dev")
+            super().__init__(client=True, keepalive=1e6, login=True, device_name="dev",
+                             addresses=("dev.local",) if hostname else ("10.0.0.1",))
         except BaseException:
-            zmod.Zeroconf, zmod.AsyncZeroconf = self._saved_zc  # type: ignore[misc]
+            zmod.Zeroconf, zmod.AsyncZeroconf, hr.AsyncServiceInfo = self._saved_zc  # type: ignore[misc]
             raise
         self.zlog.now = self.loop.time
         from aioesphomeapi.reconnect_logic import ReconnectLogic
@@ -65,7 +76,7 @@ class RecWorld(ConnWorld):
             on_connect=self._on_connect,
             on_disconnect=self._on_disconnect,
             zeroconf_instance=self.app_zc,
-            name="dev",
+            name=None if hostname else "dev",
             on_connect_error=self._on_error,
         )
         # --- monitor state ---
@@ -93,6 +104,7 @@ class RecWorld(ConnWorld):
         self.ret_hook = self._ret
         self.stop_seq: dict[str, int] = {}
         self.last_start_seq = 0
+        self.user_asked_disconnect = False
         self.oblig: list[dict[str, Any]] = []  # reconnects the property promises: {"created", "due", "why"}
         self.stop_issued = False  # a stop() was issued after the last start(): nothing is promised any more
 
@@ -108,6 +120,10 @@ class RecWorld(ConnWorld):
     async def _on_disconnect(self, expected: bool) -> None:
         self.calls.append((self.loop.time(), "on_disconnect", bool(expected)))
         self.note("on_disconnect", bool(expected))
+        if self.user_asked_disconnect and not expected:
+            self.viol.append("C18:expectedness: the user had called disconnect() on this session, but its end was reported as unexpected "
+                             "(no cool-down before the reconnect)")
+        self.user_asked_disconnect = False
         self.ends.append((self.loop.time(), bool(expected)))
         self.tags.add("end-expected" if expected else "end-unexpected")
         self.promise(0.0 if not expected else 5.0, "unexpected disconnect: immediately" if not expected else "expected disconnect: after 5 s")
@@ -219,7 +235,8 @@ class RecWorld(ConnWorld):
         return "handshaking" if (s.connect_result == 0 and s.sent) else "connecting"
 
     def listeners(self) -> int:
-        return sum(len(i.zeroconf.listeners) for i in self.zlog.instances)
+        """Listeners that can still be reached: registered on an instance that has not been closed."""
+        return sum(len(i.zeroconf.listeners) for i in self.zlog.instances if not i.closed)
 
     def check_stopped(self) -> None:
         if self.listeners():
@@ -259,7 +276,7 @@ class RecWorld(ConnWorld):
         try:
             super().close()
         finally:
-            self._zmod.Zeroconf, self._zmod.AsyncZeroconf = self._saved_zc  # type: ignore[misc]
+            self._zmod.Zeroconf, self._zmod.AsyncZeroconf, self._hr.AsyncServiceInfo = self._saved_zc  # type: ignore[misc]
 
 
 def records(kind: str) -> list[Any]:
@@ -278,13 +295,14 @@ def records(kind: str) -> list[Any]:
 
 
 class RecHarness:
-    def __init__(self, seed: tuple[str, ...], supplied_zc: bool = False) -> None:
+    def __init__(self, seed: tuple[str, ...], supplied_zc: bool = False, hostname: bool = False) -> None:
         self.seed = list(seed)
         self.supplied = supplied_zc
+        self.hostname = hostname
         self.can_fp = True
 
     def fresh(self) -> RecWorld:
-        w = RecWorld(self.supplied)
+        w = RecWorld(self.supplied, self.hostname)
         for lab in self.seed:
             self.apply(w, lab)
         return w
@@ -299,7 +317,7 @@ class RecHarness:
         s = w.live_sock()
         if s is not None and s.connect_result == 0 and not w.net.connecting():
             if w.in_session:
-                io += ["DR", "eof", "user_disc"]
+                io += ["DR", "eof", "user_disc", "user_disc_graceful"]
             else:
                 io += ["hello_ok", "bad_pw", "marker01", "eof"]
         if w.listeners():
@@ -360,12 +378,17 @@ class RecHarness:
             w.io_chunk(w.live_sock(), w.dframe(mk("DisconnectRequest")))
         elif label == "user_disc":
             w.counter += 1
+            w.user_asked_disconnect = True
             w.spawn(f"user_disc#{w.counter}", lambda: w.client.disconnect(force=True))
+        elif label == "user_disc_graceful":
+            w.counter += 1
+            w.user_asked_disconnect = True
+            w.spawn(f"user_disc#{w.counter}", lambda: w.client.disconnect())
         elif label.startswith("zc_"):
             matching = label in ("zc_ptr", "zc_a")
             recs = records(label)
             c = w.client._connection
-            for inst in list(w.zlog.instances):
+            for inst in [i for i in w.zlog.instances if not i.closed]:
                 for lst in list(inst.zeroconf.listeners):
                     if matching and w.phase not in ("handshaking", "ready"):
                         w.record_instants.append(w.loop.time())
@@ -402,6 +425,10 @@ class RecHarness:
                 if last != "on_connect":
                     v.append(f"C18:alternation: on_disconnect at {t} without a preceding on_connect")
                 last = kind
+        if not w.loop.busy() and w.live_sock() is None and not w.in_session and any(o["why"].startswith("failure") for o in w.oblig):
+            # waiting out a back-off: a record for the device can only be "seen" through a listener on an instance that is still open
+            if w.listeners() == 0:
+                v.append("C18:not-listening: waiting for a timed retry after a failed attempt, but no mDNS listener is registered on an open zeroconf instance")
         nc = sum(1 for c in w.calls if c[1] == "on_connect")
         nd_ = sum(1 for c in w.calls if c[1] == "on_disconnect")
         # a callback may be delayed while the manager is busy (it serialises on a lock); it may never be duplicated or invented
@@ -490,8 +517,8 @@ class RecHarness:
         w.close()
 
 
-def factory(seed: tuple[str, ...], supplied: bool = False) -> RecHarness:
-    return RecHarness(seed, supplied)
+def factory(seed: tuple[str, ...], supplied: bool = False, hostname: bool = False) -> RecHarness:
+    return RecHarness(seed, supplied, hostname)
 
 
 # ---------------------------------------------------------------------------------------------------
@@ -545,7 +572,7 @@ def linear_runs(res: Result) -> dict[str, Any]:
     return {"linear_runs": runs, "backoff_table": table}
 
 
-SEEDS: list[tuple[tuple[str, ...], bool]] = [
+SEEDS: list[tuple[Any, ...]] = [
     ((), False),
     (("rl_start",), False),
     (("rl_start", "tcp_refused"), False),
@@ -560,6 +587,8 @@ SEEDS: list[tuple[tuple[str, ...], bool]] = [
     (("rl_start", "tcp_refused"), True),
     (("rl_start", "tcp_refused", "delta", "zc_ptr"), False),
     (("rl_start", "tcp_refused", "delta", "zc_ptr", "tcp_ok", "hello_ok"), False),
+    (("rl_start", "tcp_refused"), False, True),
+    (("rl_start", "tcp_ok", "hello_ok"), False, True),
 ]
 
 
@@ -571,16 +600,18 @@ def run(tier: str, seed: int) -> Result:
     budget = 200.0 if q else 3000.0
     t_end = time.monotonic() + budget
     per = []
-    for i, (sd, supplied) in enumerate(SEEDS):
+    for i, cfg in enumerate(SEEDS):
+        sd, supplied = cfg[0], cfg[1]
+        hostname = bool(cfg[2]) if len(cfg) > 2 else False
         depth, bound = (4, 1) if q else (6, 2)
         left = max(5.0, (t_end - time.monotonic()) / (len(SEEDS) - i))
-        st = explore_parallel(factory, (sd, supplied), depth=depth, bound=bound, budget_s=left, split_depth=1)
-        per.append({"seed": list(sd), "application_zeroconf": supplied, "depth_after_seed": depth, "deviation_bound": bound,
+        st = explore_parallel(factory, (sd, supplied, hostname), depth=depth, bound=bound, budget_s=left, split_depth=1)
+        per.append({"seed": list(sd), "application_zeroconf": supplied, "hostname_address": hostname, "depth_after_seed": depth, "deviation_bound": bound,
                     "executions": st.executions, "states": st.states, "transitions": st.transitions, "time_capped": st.time_capped})
         for v in st.violations:
             clause = v["violated"][0]
             kind = ":".join(clause.split(":")[:2])[:70]
-            res.add(kind, clause, {"harness": "c18", "seed": list(sd), "supplied": supplied, "choices": v["choices"], "violated": v["violated"],
+            res.add(kind, clause, {"harness": "c18", "seed": list(sd), "supplied": supplied, "hostname": hostname, "choices": v["choices"], "violated": v["violated"],
                                    "observations": v["observations"]})
         total.merge(st)
     need = {"on_connect", "end-expected", "end-unexpected", "just:start", "just:mdns", "just:unexpected-end", "just:expected-end+5", "just:backoff-2"}
@@ -622,7 +653,7 @@ def replay(rp: dict[str, Any]) -> bool:
         bad = [v for v in res.violations if v.key == rp["key"]]
         print(rp["key"], "->", "still violated" if bad else "holds")
         return not bad
-    h = factory(tuple(d["seed"]), d.get("supplied", False))
+    h = factory(tuple(d["seed"]), d.get("supplied", False), d.get("hostname", False))
     w = h.fresh()
     try:
         v: list[str] = []
